@@ -176,7 +176,8 @@ def writeData (k : Kind) (c : Cfg) (eo : EOff) (uoff : Nat) (x : WExpr) : Out By
 
 /-- `let marker = !0 >> (64 - address_size * 8);` — `address_size: u8`, so the shift amount is
 computed in `u8`: for sizes outside 1..8 the expression overflows (panic with overflow checks,
-wrapped otherwise; `write_udata(marker, size)` then rejects the size in any case). -/
+wrapped otherwise; `write_udata(marker, size)` then rejects the size in any case). Since
+`Unit::write` rejects those sizes up front this is unreachable through the public API. -/
 def marker (m : Mode) (size : Nat) : Out Nat :=
   if 1 ≤ size ∧ size ≤ 8 then .ok (2 ^ (8 * size) - 1)
   else match m with
@@ -407,12 +408,16 @@ structure Pos where
   locStart : Nat := 0
   deriving Repr, DecidableEq
 
-/-- The list-related part of `Unit::write`: version check of the unit header,
-`have_base_address`, the range list table, the location list table (DIE offsets are known by
-then), and finally the root DIE's `DW_AT_low_pc` (written with `write_address`, which can still
-fail). The section fields of the result are the bytes this unit appends. -/
+/-- The list-related part of `Unit::write`: the address size check (`fix: reject unsupported
+address sizes when writing a unit`: anything but 1, 2, 4, 8 is `UnsupportedWordSize` before
+anything is written), the version check of the unit header, `have_base_address`, the range list
+table, the location list table (DIE offsets are known by then), and finally the root DIE's
+`DW_AT_low_pc` (written with `write_address`, which can still fail). The section fields of the
+result are the bytes this unit appends. -/
 def writeUnitAt (m : Mode) (u : UnitIn) (p : Pos) : Out UnitOut :=
-  if ¬ (2 ≤ u.cfg.version ∧ u.cfg.version ≤ 5) then .err .wUnsupportedVersion else do
+  if ¬ (u.cfg.addrSize = 1 ∨ u.cfg.addrSize = 2 ∨ u.cfg.addrSize = 4 ∨ u.cfg.addrSize = 8) then
+    .err .wUnsupportedWordSize
+  else if ¬ (2 ≤ u.cfg.version ∧ u.cfg.version ≤ 5) then .err .wUnsupportedVersion else do
   let hb := haveBaseAddress u.lowPc
   let ra := addAll [] u.rng
   let la := addAll [] u.loc
